@@ -39,13 +39,15 @@ KTAB = {
     "Iacl": lambda v: ("ac_current_source", {"I": 1, "w": 2, "phi": "a43", "G": F(1, v)}),
     "Idc": lambda v: ("dc_current_source", {"I": F(v, 3)}),
     "Idcl": lambda v: ("dc_current_source", {"I": -1, "G": F(1, v)}),
+    "Vach": lambda v: ("ac_voltage_source", {"V": 3, "w": 2000, "phi": "a43"}),
+    "Iach": lambda v: ("ac_current_source", {"I": 2, "w": 2000, "phi": "pi", "G": F(1, v)}),
     "Vc": lambda v: ("complex_voltage_source", {"V": [1, v], "Z": [0, 0]}),
     "Ic": lambda v: ("complex_current_source", {"I": [v, -1], "Y": [F(1, v), 0]}),
 }
-K12 = ("R", "C", "L", "Z", "G", "lamp", "Vdc", "Vac", "Vacl", "Iac", "Idcl", "Y")
+K12 = ("R", "C", "L", "Z", "G", "lamp", "Vdc", "Vac", "Vacl", "Iac", "Idcl", "Vach")
 K_ALL = tuple(KTAB)
 K5 = ("R", "C", "L", "Vac", "Idc")
-K4 = ("R", "C", "Vacl", "Iac")
+K4 = ("R", "C", "Vach", "Iac")
 RES_DEFAULT = F(1, 1000)
 
 
@@ -57,9 +59,20 @@ LEVELS_QUICK = [(2, 1, K_ALL), (2, 2, K_ALL), (3, 2, K_ALL), (2, 3, K12), (3, 3,
 LEVELS_THOROUGH = [(2, 1, K_ALL), (2, 2, K_ALL), (3, 2, K_ALL), (2, 3, K_ALL), (3, 3, K_ALL), (3, 4, K5 + ("Vacl", "G")), (4, 3, K12), (4, 4, K5), (4, 5, K4)]
 
 
-def freq_alphabet():
+SRC_W = {"Vdc": 0, "Vdcl": 0, "Idc": 0, "Idcl": 0, "Vac": 1, "Iac": 1, "Vacl": 2, "Iacl": 2, "Vach": 2000, "Iach": 2000}
+
+
+def freq_alphabet(kt=None):
+    """analysis frequencies placed relative to the source frequencies present in the circuit: on the frequency,
+    just inside (+-res/2, +-0.99 res), just outside (+-1.01 res, +-2 res), twice it; plus 0, an unrelated and a large one"""
     r = RES_DEFAULT
-    return [F(0), r / 2, 2 * r, F(1), 1 + r / 2, 1 - 2 * r, F(2), 2 - r / 2, 2 + 2 * r, F(3), F(7, 3), F(1000)]
+    ws = sorted({F(SRC_W[k]) for k in (kt if kt is not None else SRC_W) if k in SRC_W})
+    out = [F(0), F(7, 3), F(1000)]
+    for w in ws:
+        for x in (w, w + r / 2, w - r / 2, w + r * F(99, 100), w - r * F(99, 100), w + r * F(101, 100), w - r * F(101, 100), w + 2 * r, w - 2 * r, 2 * w):
+            if x >= 0 and x not in out:
+                out.append(x)
+    return sorted(out)
 
 
 def shards(tier):
@@ -67,7 +80,7 @@ def shards(tier):
     for (n, b, kinds) in (LEVELS_QUICK if tier == "quick" else LEVELS_THOROUGH):
         topos = sp.topologies(n, b)
         nk = len(kinds) ** b
-        per = max(1, 600 // (2 ** b * 12))
+        per = max(1, 600 // (2 ** b * 16))
         for ti in range(len(topos)):
             for ch in sp.chunks(range(nk), per):
                 out.append(("Cq(%d,%d)|K%d" % (n, b, len(kinds)), (n, b, ti, kinds, ch[0], ch[-1] + 1)))
@@ -109,8 +122,8 @@ def run_shard(desc):
     res = new_result()
     topo = sp.topologies(n, b)[ti]
     allk = list(itertools.product(kinds, repeat=b))
-    ws = freq_alphabet()
     for kt in allk[k0:k1]:
+        ws = freq_alphabet(kt)
         wp = [w for w in ws if class_wp(topo, kt, w)]
         nvar = 2 ** b
         res["evals"] += nvar * len(ws)
@@ -143,7 +156,7 @@ def judge(d, ws, res):
         nl = rc.netlist(d, w, RES_DEFAULT)
         phi_ref, cur_ref = cm.float_tableau_solution(nl)
         s_phi, s_i = cm.scales(nl, phi_ref, cur_ref)
-        rtol = 1e-9 if w < 100 else 1e-6
+        rtol = 1e-9 if w < 100 else 1e-6   # decades rule: at w >= 100 the immittances span > 6 decades
         tol_v, tol_i = rtol * s_phi, rtol * s_i
         res["states"] += 1
         res["transitions"] += 1
